@@ -101,6 +101,10 @@ def main():
     for f in glob.glob(os.path.join(V, "selftest", "sweep_seed*.json")):
         for r in json.load(open(f)): done.add((r["file"], r["op"], r["line"]))
     s = [x for x in s if (x[0], x[1], x[5]) not in done]
+    # re-check mode: only the sites a given earlier sweep left undetected (after strengthening the checks)
+    if os.environ.get("SWEEP_RECHECK"):
+        want = {(r["file"], r["op"], r["line"]) for r in json.load(open(os.environ["SWEEP_RECHECK"])) if r["status"] not in ("detected", "does-not-compile-cleanly")}
+        s = [x for x in sites() if (x[0], x[1], x[5]) in want]
     random.Random(seed).shuffle(s)
     # stratify: at most n/len(OPS)*3 per operator
     cap = max(2, int(os.environ.get("SWEEP_CAP", n * 3 // len(OPS)))); cnt = {}; pick = []
@@ -109,7 +113,7 @@ def main():
         cnt[x[1]] = cnt.get(x[1], 0) + 1; pick.append(x)
         if len(pick) >= n: break
     print(f"{len(s)} sites, {len(pick)} sampled", flush=True)
-    out_path = os.path.join(V, "selftest", f"sweep_seed{seed}.json"); results = []
+    out_path = os.path.join(V, "selftest", f"sweep_seed{seed}{'_recheck' if os.environ.get('SWEEP_RECHECK') else ''}.json"); results = []
     with cf.ThreadPoolExecutor(max_workers=WORKERS) as ex:
         for r in ex.map(run_one, list(enumerate(pick))):
             if r is None: continue
